@@ -53,7 +53,10 @@ Definition parse_key_i (m : bool * bool) : option bool := if fst m then Some (sn
 Definition rsa_verify_i (rk : bool) (_ _ : bytes) : bool := rk.
 
 Definition pcode_eqb (a b : pcode) : bool :=
-  (p_code a =? p_code b) && (p_valid a =? p_valid b)%Z && (p_expire a =? p_expire b)%Z
+  (p_code a =? p_code b)
+  && Bool.eqb (p_has_valid a) (p_has_valid b) && Bool.eqb (p_has_expire a) (p_has_expire b)
+  && (negb (p_has_valid a) || (p_valid a =? p_valid b)%Z)
+  && (negb (p_has_expire a) || (p_expire a =? p_expire b)%Z)
   && Bool.eqb (p_consumed a) (p_consumed b) && (p_tried a =? p_tried b)%Z.
 
 Definition opt_eqb {A} (f : A -> A -> bool) (a b : option A) : bool :=
@@ -96,7 +99,7 @@ Inductive ccase :=
          (hp : option header) (cp : option claims) (exp_err : N) (exp_claims : option claims)
 | CClaims (c tmpl : claims) (exp : N)
 | CJwtTime (c : claims) (now : Z) (exp : N)
-| CPass (expiry : Z) (ops : list pop) (exp : list (N * rstate)).
+| CPass (expiry : Z) (start : rstate) (ops : list pop) (exp : list (N * rstate)).
 
 Definition jres_agrees (r : jres token) (exp_err : N) (exp_claims : option claims) : bool :=
   match r with
@@ -145,7 +148,7 @@ Definition check_case (c : ccase) : bool :=
         exp_err exp_claims
   | CClaims c tmpl exp => opt_code (check_claims c tmpl) =? exp
   | CJwtTime c now exp => opt_code (check_time c now) =? exp
-  | CPass expiry ops exp => results_eqb (run expiry init_state ops) exp
+  | CPass expiry start ops exp => results_eqb (run expiry start ops) exp
   end.
 
 Fixpoint mismatches_from (i : nat) (cs : list ccase) : list nat :=
